@@ -48,6 +48,7 @@ def _xyz_text(V):
     except PyExc as e:
         V.ensure("reader/accepts-the-written-text", z3.BoolVal(False))
         return
+    V.ensure("reader/accepts-the-written-text", z3.BoolVal(True))
     sa, ra = m.fields["_atoms"].items, r.fields["_atoms"].items
     V.ensure("roundtrip/atom-count-order-elements", I.and_(len(sa) == len(ra), *[I.eq(x.fields["element"], y.fields["element"]) for x, y in zip(sa, ra)]))
     R6 = T.rounding(6)
@@ -83,6 +84,7 @@ def _xyz_ens(V):
     except PyExc:
         V.ensure("reader/accepts-the-written-text", z3.BoolVal(False))
         return
+    V.ensure("reader/accepts-the-written-text", z3.BoolVal(True))
     cr, cs = r.fields["_coords"], e.fields["_coords"]
     V.ensure("roundtrip/frame-and-atom-count", z3.BoolVal(tuple(cr.tail) == (2, 2, 3)))
     if tuple(cr.tail) == (2, 2, 3):
@@ -101,8 +103,8 @@ def units_unit(fmt):
         V.witness(lambda ev: {"op": "units", "format": fmt, "unit": unit, "signature": f"units/{fmt}"})
         V.cover()
         w = V.method(m, f"dumps_{fmt}", [])
+        V.ensure("writer/returns-text", z3.BoolVal(w.returned))
         if not w.returned:
-            V.ensure("writer/returns-text", z3.BoolVal(False))
             return
         cls = V.cls(M.CLS["Molecule"])
         I.target = f"{GEO}.yield_from_xyz" if fmt == "xyz" else f"{M.CLS['Structure']}.yield_from_mol2"
